@@ -8,33 +8,50 @@ CONSTANT MaxLen
 Vals == {[num |-> "3", den |-> "1", decimal |-> "3"], [num |-> "1", den |-> "1", decimal |-> "1"], [num |-> "7", den |-> "2", decimal |-> "3.5"]}
 McNames == [k \in UKeys |-> IF k = "DECADE" THEN [sg |-> "decade", pl |-> "decades"] ELSE IF k = "Meter" THEN [sg |-> "m", pl |-> "m"]
                                  ELSE IF k = "Second" THEN [sg |-> "s", pl |-> "s"] ELSE [sg |-> "?", pl |-> "?s"]]
-McSyms == [dot |-> "*", sup |-> <<"^0", "^1", "^2", "^3", "^4", "^5", "^6", "^7", "^8", "^9">>, micro |-> "u"]
+McSyms == [dot |-> "*", sup |-> <<"^0", "^1", "^2", "^3", "^4", "^5", "^6", "^7", "^8", "^9">>, micro |-> "u", corner |-> "+-", bar |-> "|", caret |-> "^"]
+McText == "(1 / 0) (3 m) (2 / 0)"
 Units == {<<>>, <<<<"Meter", 1, 0>>>>, <<<<"Second", -1, 0>>>>, <<<<"DECADE", 1, 0>>>>, <<<<"Meter", 12, 3>>, <<"DECADE", -1, 0>>>>}
-Results == {[k |-> "val", msg |-> "", msg1 |-> "", num |-> v.num, den |-> v.den, decimal |-> v.decimal, u |-> u] : v \in Vals, u \in Units}
-           \cup {[k |-> "err", msg |-> "divide by zero", msg1 |-> "divide by zero", num |-> "", den |-> "", decimal |-> "", u |-> <<>>]}
+Results == {[k |-> "val", msg |-> "", msg1 |-> "", num |-> v.num, den |-> v.den, decimal |-> v.decimal, u |-> u, s |-> 0, e |-> 0] : v \in Vals, u \in Units}
+           \cup {[k |-> "err", msg |-> "divide by zero", msg1 |-> "divide by zero", num |-> "", den |-> "", decimal |-> "", u |-> <<>>, s |-> se[1], e |-> se[2]] :
+                    se \in {<<1, 6>>, <<15, 20>>, <<0, 21>>, <<21, 21>>}}
 RECURSIVE PrintOut(_, _, _)
 PrintOut(results, j, exact) == IF j > Len(results) THEN <<>>
-                            ELSE (IF results[j].k = "val" THEN <<Line(results[j], exact)>> ELSE <<"error: " \o results[j].msg, "  | source", "">>)
+                            ELSE (IF results[j].k = "val" THEN <<Line(results[j], exact)>> ELSE DiagBlock(McText, results[j]))
                                  \o PrintOut(results, j + 1, exact)
 VARIABLES rs, exact
 Init == rs = <<>> /\ exact \in BOOLEAN
 Next == Len(rs) < MaxLen /\ \E r \in Results : rs' = Append(rs, r) /\ UNCHANGED exact
-Accepts == Matches(PrintOut(rs, 1, exact), rs, <<>>, exact) = ""
+Accepts == /\ Matches(PrintOut(rs, 1, exact), rs, <<>>, exact, McText, TRUE) = ""
+           /\ Matches(PrintOut(rs, 1, exact), rs, <<>>, exact, McText, FALSE) = ""
 \* corruptions
 DropLast(ls) == SubSeq(ls, 1, Len(ls) - 1)
-RejectsDropped == (rs # <<>> /\ rs[Len(rs)].k = "val") => Matches(DropLast(PrintOut(rs, 1, exact)), rs, <<>>, exact) # ""
+RejectsDropped == (rs # <<>> /\ rs[Len(rs)].k = "val") => Matches(DropLast(PrintOut(rs, 1, exact)), rs, <<>>, exact, McText, TRUE) # ""
 \* a line with the blank always printed / the plural always used / a denominator pluralised is rejected
 Corrupt(r, how) == LET c == CompoundOfList(r.u) IN
   CASE how = "blank" -> ValueText(r, exact) \o " " \o UnitText(c, ~IsOne(r), Names, Syms)
     [] how = "plural" -> ValueText(r, exact) \o (IF HasNumerator(c) THEN " " ELSE "") \o UnitText(c, TRUE, Names, Syms)
 RECURSIVE PrintCorrupt(_, _, _)
 PrintCorrupt(results, j, how) == IF j > Len(results) THEN <<>>
-                                 ELSE (IF results[j].k = "val" THEN <<Corrupt(results[j], how)>> ELSE <<"error: " \o results[j].msg, "  | source", "">>)
+                                 ELSE (IF results[j].k = "val" THEN <<Corrupt(results[j], how)>> ELSE DiagBlock(McText, results[j]))
                                       \o PrintCorrupt(results, j + 1, how)
 RejectsAlwaysBlank == (\E j \in 1..Len(rs) : rs[j].k = "val" /\ rs[j].u # <<>> /\ ~HasNumerator(CompoundOfList(rs[j].u))) =>
-   Matches(PrintCorrupt(rs, 1, "blank"), rs, <<>>, exact) # ""
+   Matches(PrintCorrupt(rs, 1, "blank"), rs, <<>>, exact, McText, TRUE) # ""
 RejectsPluralOne == (\E j \in 1..Len(rs) : rs[j].k = "val" /\ IsOne(rs[j]) /\ rs[j].u = <<<<"DECADE", 1, 0>>>>) =>
-   Matches(PrintCorrupt(rs, 1, "plural"), rs, <<>>, exact) # ""
+   Matches(PrintCorrupt(rs, 1, "plural"), rs, <<>>, exact, McText, TRUE) # ""
+\* a diagnostic whose underline or column is that of another range (one byte to the right, one byte shorter, the whole
+\* query) is rejected for a plain query -- and accepted only as far as its first line for any other
+Moved(r, how) == CASE how = "right" -> [r EXCEPT !.s = @ + 1, !.e = @ + 1]
+                   [] how = "short" -> IF r.e > r.s + 1 THEN [r EXCEPT !.e = @ - 1] ELSE [r EXCEPT !.s = @ - 1]
+                   [] how = "whole" -> [r EXCEPT !.s = 0, !.e = IF r.s = 0 /\ r.e = Len(McText) THEN r.e - 1 ELSE Len(McText)]
+RECURSIVE PrintMoved(_, _, _, _)
+PrintMoved(results, j, how, first) == IF j > Len(results) THEN <<>>
+   ELSE (IF results[j].k = "val" THEN <<Line(results[j], exact)>> ELSE DiagBlock(McText, IF first THEN Moved(results[j], how) ELSE results[j]))
+        \o PrintMoved(results, j + 1, how, first /\ results[j].k = "val")
+RejectsMovedUnderline == (\E j \in 1..Len(rs) : rs[j].k = "err") =>
+   \A how \in {"right", "short", "whole"} : /\ Matches(PrintMoved(rs, 1, how, TRUE), rs, <<>>, exact, McText, TRUE) = "diagnostic"
+                                            /\ Matches(PrintMoved(rs, 1, how, TRUE), rs, <<>>, exact, McText, FALSE) = ""
+DiagExample == DiagBlock("1 / 0 + 2", [msg |-> "divide by zero", s |-> 0, e |-> 5]) =
+                 <<"error: divide by zero", "  +- <in>:1:1", "  |", "1 | 1 / 0 + 2", "  | ^^^^^ divide by zero", "">>
 \* the composition itself on fixed examples
 Examples == /\ UnitText(CompoundOfList(<<<<"Meter", 12, 3>>, <<"DECADE", -1, 0>>>>), TRUE, Names, Syms) = "km^1^2/decade"
             /\ UnitText(CompoundOfList(<<<<"DECADE", 1, 0>>>>), TRUE, Names, Syms) = "decades"
